@@ -12,7 +12,7 @@ use serde_json::{json, Value};
 use xml_schema_generator::{Element, Options, SortBy};
 
 const DERIVES: &[&str] = &["Serialize, Deserialize", "", "Debug", "Clone, Debug, PartialEq, serde::Deserialize", "  spaced ,Odd  ", "Debug, Clone, Debug, PartialEq", "Debug,Clone", " "];
-const PREFIXES: &[&str] = &["@", "", "attr_", "@@"];
+const PREFIXES: &[&str] = &["@", "", "attr_", "@@", "a"];
 const TEXTS: &[&str] = &["$text", "$value", "text", "#text"];
 
 fn opts(derive: &str, prefix: &str, text: &str, sorted: bool) -> Options {
@@ -96,7 +96,10 @@ pub fn judge(docs: &[&DocEntry], el: &Element<String>, rank: u64) -> (Vec<Violat
         rank,
     };
     for sorted in [false, true] {
-        let base_text = subject::render(el, subject::Preset::QuickXml, sorted);
+        let base_text = match subject::guarded(|| subject::render(el, subject::Preset::QuickXml, sorted)) {
+            Ok(t) => t,
+            Err(_) => continue, // a panicking renderer is C07's business
+        };
         let base = match parse_rendered(&base_text) {
             Ok(b) => b,
             Err(e) => {
@@ -104,6 +107,32 @@ pub fn judge(docs: &[&DocEntry], el: &Element<String>, rank: u64) -> (Vec<Violat
                 continue;
             }
         };
+        // the base rendering itself must bind every field to the name the documents define
+        // (otherwise a wrong binding common to all option tuples would go unnoticed)
+        if let Ok(tree) = crate::rsast::resolve(&base) {
+            let b = crate::oracle::Binding::quick_xml();
+            fn names(s: &crate::refmodel::SNode, out: &mut Vec<String>, path: &str) {
+                for a in &s.attrs {
+                    out.push(format!("{}/@{}", path, a.name));
+                }
+                if s.text {
+                    out.push(format!("{}/$text", path));
+                }
+                for c in &s.children {
+                    out.push(format!("{}/{}", path, c.name));
+                    names(&c.node, out, &format!("{}/{}", path, c.name));
+                }
+            }
+            let mut want = Vec::new();
+            names(&to_bound_names(&expected_schema(docs), &b), &mut want, "");
+            let mut got = Vec::new();
+            names(&rendered_schema(&base, &tree, &b), &mut got, "");
+            want.sort();
+            got.sort();
+            if want != got {
+                out.push(mk("binding", format!("fields are bound to {:?} but the documents define {:?}", got, want), ("", "@", "$text", sorted)));
+            }
+        }
         // the presets must be two of the tuples
         let q = Options::quick_xml_de();
         let s = Options::serde_xml_rs();
@@ -138,7 +167,10 @@ pub fn judge(docs: &[&DocEntry], el: &Element<String>, rank: u64) -> (Vec<Violat
                 out.push(mk("preset", format!("preset {} has attribute prefix {:?}", name, p.attribute_prefix), (&d, prefix, &t, sorted)));
             }
             renders += 1;
-            let text = el.to_serde_struct(&p);
+            let text = match subject::guarded(|| el.to_serde_struct(&p)) {
+                Ok(t) => t,
+                Err(_) => continue,
+            };
             if let Err((class, msg)) = compare(&base, &text, &d, &p.attribute_prefix, &t) {
                 out.push(mk(class, format!("preset {}: {}", name, msg), (&d, prefix, &t, sorted)));
             }
@@ -151,7 +183,10 @@ pub fn judge(docs: &[&DocEntry], el: &Element<String>, rank: u64) -> (Vec<Violat
                 .derive(derive);
                 p2.sort = if sorted { SortBy::XmlName } else { SortBy::Unsorted };
                 renders += 1;
-                let text = el.to_serde_struct(&p2);
+                let text = match subject::guarded(|| el.to_serde_struct(&p2)) {
+                    Ok(t) => t,
+                    Err(_) => continue,
+                };
                 if let Err((class, msg)) = compare(&base, &text, derive, &p2.attribute_prefix, &p2.text_identifier) {
                     out.push(mk(class, format!("preset {}.derive({:?}): {}", name, derive, msg), (derive, prefix, &t, sorted)));
                 }
@@ -192,11 +227,11 @@ pub fn run(ctx: &Ctx) {
     // (b) names for which identifier != bound name (and == bound name) both occur
     let names: Vec<PoolName> = ADV
         .iter()
-        .filter(|p| ["a", "b", "type", "Type", "Foo", "a-b", "ns:a", "ns:type", "xmlns:ns", "xmlns", "text", "é", "FOO", "a_type"].contains(&p.name))
+        .filter(|p| ["a", "b", "type", "Type", "Foo", "a-b", "ns:a", "ns:type", "xmlns:ns", "xmlns", "text", "é", "FOO", "a_type", "foo", "attr_id"].contains(&p.name))
         .cloned()
         .collect();
     let subs = subsets(names.len(), 2);
-    let params = TreeParams { min_nodes: 0, max_nodes: ctx.tier.pick(3, 4), max_decorated: ctx.tier.pick(1, 2), root_from_subset: false, shard: (0, 1) };
+    let params = TreeParams { min_nodes: 0, max_nodes: 3, max_decorated: ctx.tier.pick(1, 2), root_from_subset: false, shard: (0, 1) };
     let res2 = par_for(
         subs.len() as u64,
         ctx.threads,
@@ -230,7 +265,7 @@ pub fn run(ctx: &Ctx) {
     ctx.set("named_trees", json!({"names": names.iter().map(|n| n.name).collect::<Vec<_>>(), "subsets": subs.len(), "subsets_done": res2.processed, "nodes_max": params.max_nodes, "decorated_max": params.max_decorated}));
     ctx.set(
         "rule",
-        json!("for every document: 8 derive strings (incl. a repeated trait, one without spaces and a blank one) x 4 attribute prefixes x 4 text identifiers x 2 sort options, plus the two preset constructors and their derive() builder; each rendering is compared with the rendering under the quick-xml preset with the same sort: same structs, field identifiers, types and order; derive line verbatim on every struct or absent when empty; attribute fields bound to prefix + local name, children to their local name, text to the text identifier; no rename equal to the identifier. evaluations = renderings compared, distinct_nontrivial = distinct documents (trees) each rendered under all tuples"),
+        json!("for every document: 8 derive strings (incl. a repeated trait, one without spaces and a blank one) x 5 attribute prefixes (one of them a leading substring of attribute names) x 4 text identifiers x 2 sort options, plus the two preset constructors and their derive() builder; each rendering is compared with the rendering under the quick-xml preset with the same sort: same structs, field identifiers, types and order; derive line verbatim on every struct or absent when empty; attribute fields bound to prefix + local name, children to their local name, text to the text identifier; no rename equal to the identifier. evaluations = renderings compared, distinct_nontrivial = distinct documents (trees) each rendered under all tuples"),
     );
 }
 
